@@ -1,3 +1,198 @@
 import GnpyModel
-/- Property theorems for C07 (only the property theorems and their non-vacuity examples live here;
-   helper lemmas go to GnpyProofs/Lemmas). -/
+import GnpyProofs.Lemmas.Bands
+/- Property theorems for C07 — the launched channel set survives the path intact; channel order is irrelevant.
+   Model: GnpyModel/Bands.lean.  Vocabulary and the proofs proper: Lemmas/Bands.lean
+   (`Before`/`Disj` on channels, `SortedF`, `Valid s := mkSpectrum s = ok s`, `Pos s` = all slot widths > 0,
+   `inAny bands c`, `BandDisj`, `parts`, `Elem.WF`).
+   Discrete model (Int/Nat/List): what is proved is what the driver executes. -/
+namespace Gnpy.Bands
+
+/-! ### construction: sorted, rejected iff overlap or baud > slot, input order irrelevant -/
+
+/-- **an accepted spectrum is the frequency-sorted permutation of what was supplied**: every channel exactly
+once, each with its own slot width, baud rate and payload (label, transmitter data, powers) -/
+theorem mk_sorted_perm (l s : List Ch) (h : mkSpectrum l = .ok s) : s.Perm l ∧ SortedF s :=
+  mk_sorted_perm' l s h
+
+/-- … strictly sorted when the slot widths are positive: no frequency twice -/
+theorem mk_strictly_sorted (l s : List Ch) (h : mkSpectrum l = .ok s) (hp : Pos l) :
+    s.Pairwise (fun a b => a.f < b.f) :=
+  valid_strict s (valid_of_mk' l s h) (fun c hc => hp c ((mk_sorted_perm' l s h).1.subset hc))
+
+/-- the only error the constructor raises is a spectrum error -/
+theorem mk_error_kind (l : List Ch) (e : Err) (h : mkSpectrum l = .error e) : e = .spectrum :=
+  mk_error_kind' l e h
+
+/-- **accepted iff no two channels overlap and no baud rate exceeds its slot** -/
+theorem mk_accepts_iff (l : List Ch) (hs : ∀ c ∈ l, 0 ≤ c.slot) :
+    (∃ s, mkSpectrum l = .ok s) ↔ l.Pairwise Disj ∧ ∀ c ∈ l, c.baud ≤ c.slot :=
+  mk_accepts_iff' l hs
+
+/-- **rejected with a spectrum error iff two channels overlap or a baud rate is wider than its slot** -/
+theorem mk_rejects_iff (l : List Ch) (hs : ∀ c ∈ l, 0 ≤ c.slot) :
+    mkSpectrum l = .error .spectrum ↔ ¬ (l.Pairwise Disj ∧ ∀ c ∈ l, c.baud ≤ c.slot) :=
+  mk_rejects_iff' l hs
+
+theorem mk_rejects_overlap (l : List Ch) (hs : ∀ c ∈ l, 0 ≤ c.slot) (h : ¬ l.Pairwise Disj) :
+    mkSpectrum l = .error .spectrum := mk_rejects_overlap' l hs h
+
+theorem mk_rejects_baud (l : List Ch) (hs : ∀ c ∈ l, 0 ≤ c.slot) (c : Ch) (hc : c ∈ l) (h : c.slot < c.baud) :
+    mkSpectrum l = .error .spectrum := mk_rejects_baud' l hs c hc h
+
+/-- **supplying the same channels in a different order gives the identical result** – the same sorted spectrum
+(hence identical per-channel records downstream) or the same rejection -/
+theorem mk_order_irrelevant (l₁ l₂ : List Ch) (hp : l₁.Perm l₂) (hs : Pos l₁) : mkSpectrum l₁ = mkSpectrum l₂ :=
+  mk_order_irrelevant' l₁ l₂ hp hs
+
+/-- … and so does the whole propagation -/
+theorem propagate_order_irrelevant (path : List Elem) (lo hi : Option Int) (d : Int) (l₁ l₂ : List Ch)
+    (hp : l₁.Perm l₂) (hs : Pos l₁) : propagate path lo hi d l₁ = propagate path lo hi d l₂ := by
+  simp only [propagate, mk_order_irrelevant' l₁ l₂ hp hs]
+
+/-- **a uniform grid is always a valid spectrum** (spacing > 0, baud rate ≤ spacing): `automatic_nch` channels, sorted,
+non-overlapping, returned as generated -/
+theorem grid_valid (fmin fmax spacing baud : Int) (hs : 0 < spacing) (hb : baud ≤ spacing) :
+    mkSpectrum (gridChans fmin fmax spacing baud) = .ok (gridChans fmin fmax spacing baud) ∧
+    (gridChans fmin fmax spacing baud).length = automaticNch fmin fmax spacing :=
+  grid_valid' fmin fmax spacing baud hs hb
+
+/-- hence `create_input_spectral_information` succeeds on every sensible request (`f_min ≤ f_max`) -/
+theorem gridSpectrum_ok (fmin fmax spacing baud : Int) (hs : 0 < spacing) (hb : baud ≤ spacing) (hf : fmin ≤ fmax) :
+    gridSpectrum fmin fmax spacing baud = .ok (gridChans fmin fmax spacing baud) := by
+  have : ¬ (fmax - fmin) / spacing < 0 := by
+    have := Int.ediv_nonneg (show 0 ≤ fmax - fmin by omega) (le_of_lt hs)
+    omega
+  simp only [gridSpectrum, this, if_false]
+  exact (grid_valid' fmin fmax spacing baud hs hb).1
+
+/-- its centre frequencies lie in `(f_min, f_max]` -/
+theorem grid_inside (fmin fmax spacing baud : Int) (hs : 0 < spacing) (c : Ch)
+    (hc : c ∈ gridChans fmin fmax spacing baud) : fmin < c.f ∧ c.f ≤ fmax :=
+  grid_inside' fmin fmax spacing baud hs c hc
+
+/-! ### band selection and merge -/
+
+/-- **demux = sub-list**: exactly the in-band channels, order and records preserved (`none` when there is none) -/
+theorem demux_sublist (b : Band) (sp : List Ch) (hv : Valid sp) (hp : Pos sp) :
+    demux b sp = if sp.filter (inBand b) = [] then none else some (.ok (sp.filter (inBand b))) :=
+  demux_valid b sp hv (fun c hc => le_of_lt (hp c hc))
+
+/-- a merge returns a valid spectrum made of exactly the channels it was given -/
+theorem mux_spec (ps : List (List Ch)) (m : List Ch) (hv : ∀ p ∈ ps, Valid p) (h : mux ps = .ok m) :
+    Valid m ∧ m.Perm ps.flatten := mux_ok ps m hv h
+
+/-- split over disjoint bands, merge: the channels that lie in one of the bands, each once, in frequency order -/
+theorem mux_demux (bs : List Band) (sp : List Ch) (hv : Valid sp) (hp : Pos sp) (hd : bs.Pairwise BandDisj)
+    (hne : parts bs sp ≠ []) : mux (parts bs sp) = .ok (sp.filter (inAny bs)) := mux_parts bs sp hv hp hd hne
+
+/-! ### the common range and the one-time filter -/
+
+/-- **`find_common_range`**: a channel lies in a band of the common range iff it lies in a band of *every*
+amplifier of the path -/
+theorem commonRange_spec (amps : List (List Band)) (lo hi : Option Int) (d : Int) (hne : amps ≠ []) (c : Ch)
+    (hc : 0 < c.slot) : inAny (commonRange amps lo hi d) c = true ↔ ∀ a ∈ amps, inAny a c = true :=
+  commonRange_spec' amps lo hi d hne c hc
+
+/-- the bands of the common range are pairwise disjoint when those of each amplifier are -/
+theorem commonRange_disjoint (amps : List (List Band)) (lo hi : Option Int) (d : Int)
+    (h : ∀ a ∈ amps, a.Pairwise BandDisj) : (commonRange amps lo hi d).Pairwise BandDisj :=
+  commonRange_disj' amps lo hi d h
+
+/-- **`filter_si`**: exactly the channels inside the common range remain (order and records preserved); no channel
+left is a ValueError -/
+theorem filterSi_spec (cr : List Band) (sp : List Ch) (hv : Valid sp) (hp : Pos sp) (hd : cr.Pairwise BandDisj) :
+    filterSi cr sp = if sp.filter (inAny cr) = [] then .error .value else .ok (sp.filter (inAny cr)) :=
+  filterSi_spec' cr sp hv hp hd
+
+/-- **removed once**: filtering again removes nothing more -/
+theorem filter_idempotent (cr : List Band) (sp s' : List Ch) (hv : Valid sp) (hp : Pos sp)
+    (hd : cr.Pairwise BandDisj) (h : filterSi cr sp = .ok s') : filterSi cr s' = .ok s' :=
+  filter_idempotent' cr sp s' hv hp hd h
+
+/-! ### amplifiers and paths -/
+
+/-- a single-band amplifier whose band holds every channel returns the spectrum as it is -/
+theorem edfaCall_id (b : Band) (r : List Band) (sp : List Ch) (hv : Valid sp) (hp : Pos sp) (hne : sp ≠ [])
+    (hin : ∀ c ∈ sp, inBand b c = true) : edfaCall (b :: r) sp = .ok sp := edfaCall_id' b r sp hv hp hne hin
+
+/-- a multiband amplifier whose disjoint bands together hold every channel returns the spectrum as it is:
+no channel lost at a band edge, none duplicated, order and records intact after the re-merge -/
+theorem multibandCall_id (bs : List Band) (sp : List Ch) (hv : Valid sp) (hp : Pos sp) (hne : sp ≠ [])
+    (hd : bs.Pairwise BandDisj) (hin : ∀ c ∈ sp, inAny bs c = true) : multibandCall bs sp = .ok sp :=
+  multibandCall_id' bs sp hv hp hne hd hin
+
+/-- **no silent duplicate**: whatever the bands, an answer of a multiband amplifier is strictly frequency-sorted
+(each channel at most once) and consists of exactly the selected channels -/
+theorem multiband_no_dup (bs : List Band) (sp out : List Ch) (hv : Valid sp) (hp : Pos sp)
+    (h : multibandCall bs sp = .ok out) :
+    out.Pairwise (fun a b => a.f < b.f) ∧ out.Perm (parts bs sp).flatten := multiband_no_dup' bs sp out hv hp h
+
+/-- **overlapping amplifier bands ⇒ spectrum error**, never the channel twice -/
+theorem multiband_overlap_rejects (l1 l2 l3 : List Band) (b1 b2 : Band) (sp : List Ch) (hv : Valid sp) (hp : Pos sp)
+    (c : Ch) (hc : c ∈ sp) (h1 : inBand b1 c = true) (h2 : inBand b2 c = true) :
+    multibandCall (l1 ++ b1 :: l2 ++ b2 :: l3) sp = .error .spectrum :=
+  multiband_overlap_rejects' l1 l2 l3 b1 b2 sp hv hp c hc h1 h2
+
+/-- **every element of a path returns exactly the channel list it was given** (count, order, baud rate, slot width,
+label, transmitter data) once every channel lies in a band of every amplifier – induction over the path -/
+theorem path_preserves_channels (path : List Elem) (sp : List Ch) (hv : Valid sp) (hp : Pos sp) (hne : sp ≠ [])
+    (hwf : ∀ e ∈ path, e.WF) (hin : ∀ c ∈ sp, ∀ a ∈ ampBands path, inAny a c = true) : callAll path sp = .ok sp :=
+  callAll_id' path sp hv hp hne hwf hin
+
+/-- **C07, end to end** (`request.propagate`): the supplied channels are sorted (or rejected by `mk_rejects_iff`); the
+channels outside the common range of the path's amplifiers are removed once, before propagation; every remaining
+channel reaches the receiver exactly once, in frequency order, with its own record, through any mix of single- and
+multi-band amplifiers -/
+theorem propagate_spec (path : List Elem) (lo hi : Option Int) (d : Int) (l si : List Ch)
+    (hmk : mkSpectrum l = .ok si) (hp : Pos l) (hwf : ∀ e ∈ path, e.WF) :
+    propagate path lo hi d l =
+      if si.filter (inAny (commonRange (ampBands path) lo hi d)) = [] then .error .value
+      else .ok (si.filter (inAny (commonRange (ampBands path) lo hi d))) :=
+  propagate_spec' path lo hi d l si hmk hp hwf
+
+/-- a rejected spectrum is rejected by the propagation with the same error -/
+theorem propagate_rejects (path : List Elem) (lo hi : Option Int) (d : Int) (l : List Ch) (e : Err)
+    (h : mkSpectrum l = .error e) : propagate path lo hi d l = .error .spectrum := by
+  have := mk_error_kind' l e h
+  subst this
+  simp only [propagate, h]
+
+/-! ### non-vacuity: concrete C+L spectra and a mixed single-band and multi-band path (all hypotheses decidable) -/
+
+def exC : Band := { fmin := 191300000000000, fmax := 196100000000000 }
+def exL : Band := { fmin := 186000000000000, fmax := 190000000000000 }
+/-- unsorted input: two C-band channels (one edge-aligned), one L-band channel, one in the gap between the bands -/
+def exChans : List Ch :=
+  [{ f := 193100000000000, slot := 50000000000, baud := 32000000000, pay := 0 },
+   { f := 186025000000000, slot := 50000000000, baud := 32000000000, pay := 1 },
+   { f := 191325000000000, slot := 50000000000, baud := 42000000000, pay := 2 },
+   { f := 190500000000000, slot := 75000000000, baud := 64000000000, pay := 3 }]
+def exPath : List Elem := [.other, .multiband [exC, exL] [exC, exL], .other, .edfa [exC], .other]
+
+example : mkSpectrum exChans = .ok (sortF exChans) := by decide
+example : Pos exChans := by
+  intro c hc
+  simp only [exChans, List.mem_cons, List.mem_nil_iff, or_false] at hc
+  rcases hc with rfl | rfl | rfl | rfl <;> decide
+example : ∀ e ∈ exPath, e.WF := by
+  intro e he
+  simp only [exPath, List.mem_cons, List.mem_nil_iff, or_false] at he
+  rcases he with rfl | rfl | rfl | rfl | rfl
+  · trivial
+  · refine ⟨?_, ?_, fun _ => rfl⟩ <;> simp [BandDisj, exC, exL]
+  · trivial
+  · exact ⟨exC, rfl⟩
+  · trivial
+/-- the path keeps exactly the two C-band channels (common range = C), sorted -/
+example : propagate exPath none none 50000000000 exChans =
+    .ok [{ f := 191325000000000, slot := 50000000000, baud := 42000000000, pay := 2 },
+         { f := 193100000000000, slot := 50000000000, baud := 32000000000, pay := 0 }] := by decide
+/-- overlapping channels are rejected -/
+example : mkSpectrum [{ f := 193100000000000, slot := 50000000000, baud := 32000000000, pay := 0 },
+                      { f := 193125000000000, slot := 50000000000, baud := 32000000000, pay := 1 }] = .error .spectrum := by
+  decide
+/-- overlapping amplifier bands are rejected -/
+example : multibandCall [exC, { fmin := 193000000000000, fmax := 197000000000000 }]
+    [{ f := 193100000000000, slot := 50000000000, baud := 32000000000, pay := 0 }] = .error .spectrum := by decide
+
+end Gnpy.Bands
